@@ -54,6 +54,9 @@ def repo_seeds():
 
 
 INJECT = [
+    "\nX9[ws='\\xZZ ']: 'a' 'b';\n", "\nX9[ws='\\N{foo}\\t']: 'a';\n", "\nX9[ws='\\u12 ']: 'a';\n", "\nX9[ws='\\U00110000']: 'a';\n",
+    "\nX9[skipws, ws='\\x']: 'a';\n", "\nX9[ws='\\']: 'a';\n", "\nX9[ws='\\n\\q']: 'a';\n", "\nX9[split='\\xZZ']: ID;\n",
+    "\n__asgn_plain: 'x';\n", "\n__asgn_list: 'x' a=INT;\n", "\nX9: __asgn_plain;\n",
     "\nX9: /x{4294967295}/;\n", "\nX9: /\\w{99999999999,}/;\n", "\nX9: a+=INT[/,{1,99999999999}/];\n", "\nX9: /" + "(" * 120 + "a" + ")" * 120 + "/;\n",
     "\nX9: /(?<=a+)b/;\n", "\nX9: /(?P<1>a)/;\n", "\nX9: /\\p{L}/;\n", "\nX9: /[[:alpha:]]/;\n", "\nX9: /(?i)a(?-i)b/;\n",
     "\nX9: /(/;\n", "\nX9: /[a-/;\n", "\nX9: /a{2,1}/;\n", "\nX9: /(?P<n>a)(?P<n>b)/;\n", "\nX9[ws]: 'a';\n", "\nX9[nows]: 'a';\n",
